@@ -608,8 +608,27 @@ class Models:
         addr, old = self._pointee(I, st, args[0])
         comp = I.resolve(st, I.own(st, args[1]))
         I.emit(st, fr, {'k': 'ext', 'path': np, 'args': [I.resolve(st, old), comp], 'raw_args': list(args), 'gargs': [], 'dest_ty': '()'})
-        I.store(st, addr, SYM('app', 'path.push', SITE('', 0), old if old is not None else SYM('undef', 'push'), comp))
+        I.store(st, addr, self.path_push(old if old is not None else SYM('undef', 'push'), comp))
         return self.finish(I, st, fr, t, cont, ZST())
+
+    @staticmethod
+    def path_push(old, comp):
+        """push with widening: a chain of more than three pushes (a buffer that grows in a loop because a pop
+        is missing) collapses to root + set of components, so loops converge."""
+        site0 = SITE('', 0)
+        chain = []
+        v = old
+        while VAL[v][0] == 'sym' and VAL[v][1] == 'app' and VAL[v][2] == 'path.push' and len(VAL[v]) > 5:
+            chain.append(VAL[v][5])
+            v = VAL[v][4]
+        tv = VAL[v]
+        if tv[0] == 'sym' and tv[1] == 'app' and tv[2] == 'path.multi':
+            comps = set(tv[5:]) | set(chain) | {comp}
+            return SYM('app', 'path.multi', site0, tv[4], *sorted(c for c in comps if c is not None))
+        if len(chain) >= 3 or comp in chain:
+            comps = set(chain) | {comp}
+            return SYM('app', 'path.multi', site0, v, *sorted(c for c in comps if c is not None))
+        return SYM('app', 'path.push', site0, old, comp)
 
     def m_pathbuf_pop(self, I, st, fr, t, c, np, args, cont):
         """std::path::PathBuf::pop"""
@@ -619,6 +638,8 @@ class Models:
             ot = VAL[old]
             if ot[0] == 'sym' and ot[1] == 'app' and ot[2] == 'path.push':
                 new = ot[4]
+            elif ot[0] == 'sym' and ot[1] == 'app' and ot[2] == 'path.multi':
+                new = old  # root + any number of the components: closed under pop (up to the root)
         if new is None:
             new = SYM('app', 'path.pop', SITE('', 0), old if old is not None else SYM('undef', 'pop'))
         I.store(st, addr, new)
